@@ -3,9 +3,10 @@
 (* X18 -- trace validation for AtomicPublish: recorded calls of            *)
 (* replace_file / download_file / download_gunzip_lines.  A trace is       *)
 (*   [in  |-> the input record as the harness set it up; fault.k may be    *)
-(*            "anywrite" (a byte limit: which write / flush / close fails  *)
-(*            is not known), remote may be "any" (unspecified kind of      *)
-(*            damage: the call may or may not raise),                      *)
+(*            "anywrite" (a byte limit: which write / flush / close failed,*)
+(*            if any, is not known) or "maybe" (fault.c happened or not),  *)
+(*            remote may be "any" (unspecified kind of damage: the call    *)
+(*            may or may not raise),                                       *)
 (*    obs |-> the directory snapshots taken at every audited file-system   *)
 (*            event and after the call: [l |-> class of `local`,           *)
 (*            n |-> any other new entry in its directory, t |-> any entry  *)
@@ -27,10 +28,12 @@ Tr == Traces[tid]
 Chk(P) == P = TRUE
 
 Pres(c) == IF c = "absent" THEN "absent" ELSE "present"
-Matches(k, lo, tn, td) == LET o == Tr.obs[k] IN o.l = lo /\ o.n = Pres(tn) /\ o.t = Pres(td)
+Matches(k, lo, tn, st, td) == LET o == Tr.obs[k] IN o.l = lo /\ o.n = (IF st THEN "present" ELSE Pres(tn)) /\ o.t = Pres(td)
 
+NoFault == [k |-> "none", i |-> 0]
 FaultCands(f) == IF f.k = "anywrite"
-                 THEN {[k |-> "write", i |-> j] : j \in 1..ApMaxW} \cup {[k |-> "close", i |-> 0], [k |-> "fetchwrite", i |-> 0]}
+                 THEN {[k |-> "write", i |-> j] : j \in 1..ApMaxW} \cup {[k |-> "close", i |-> 0], [k |-> "fetchwrite", i |-> 0], NoFault}
+                 ELSE IF f.k = "maybe" THEN {[k |-> f.c.k, i |-> f.c.i], NoFault}
                  ELSE {[k |-> f.k, i |-> f.i]}
 RemoteCands(r) == IF r = "any" THEN {"ok", "bad"} ELSE {r}
 \* a download that fails delivers no content: the content attributes of the input are then void
@@ -44,17 +47,17 @@ TInit == /\ tid \in 1..Len(Traces)
          /\ ain \in Cands(Tr.in)
          /\ apc = (IF Downloads(ain.entry) THEN "dl_mktemp" ELSE "rf_open")
          /\ loc = ain.old0
-         /\ tmpn = (IF ain.stale THEN "stale" ELSE "absent")
+         /\ tmpn = "absent" /\ stl = ain.stale
          /\ tmpd = "absent"
          /\ ino = "orig" /\ held = ain.old0
          /\ wi = 1 /\ aexc = "none" /\ apath = <<>>
-         /\ Chk(Matches(1, ain.old0, IF ain.stale THEN "stale" ELSE "absent", "absent"))
+         /\ Chk(Matches(1, ain.old0, "absent", ain.stale, "absent"))
 
 TNext == /\ apc # "end"
          /\ ApNext
          /\ tid' = tid
-         /\ \/ Chk(Matches(ol, loc', tmpn', tmpd')) /\ ol' = ol
-            \/ ol < Len(Tr.obs) /\ Chk(Matches(ol + 1, loc', tmpn', tmpd')) /\ ol' = ol + 1
+         /\ \/ Chk(Matches(ol, loc', tmpn', stl', tmpd')) /\ ol' = ol
+            \/ ol < Len(Tr.obs) /\ Chk(Matches(ol + 1, loc', tmpn', stl', tmpd')) /\ ol' = ol + 1
          /\ (Diag => PrintT(<<"AT", tid, ol'>>))
          /\ (apc' = "end" =>
                /\ Chk(ol' = Len(Tr.obs))
